@@ -481,10 +481,10 @@ def rule_d(ctx: Context, R: Reporter):
 
 
 def run(ctx: Context, R: Reporter):
-    rule_a(ctx, R)
-    rule_b(ctx, R)
-    rule_c(ctx, R)
-    rule_d(ctx, R)
+    R.guard(rule_a, ctx, R)
+    R.guard(rule_b, ctx, R)
+    R.guard(rule_c, ctx, R)
+    R.guard(rule_d, ctx, R)
 
 
 def variants():
